@@ -99,11 +99,13 @@ func VerifC07History() {
 			wal = wals[verifapi.Choose(fmt.Sprint("wallet", s), nw)]
 		}
 		if verifapi.Bool(fmt.Sprint("accrue", s)) {
+			// earnings of the wallet's hosts, or (negative) spending of its clients
 			c := verifapi.BigInt(fmt.Sprint("earn", s))
-			verifapi.Assume(c.Sign() >= 0)
 			w.db.AddAccountBalance(wal, c)
 			owed[wal].Add(owed[wal], c)
-			ever[wal].Add(ever[wal], c)
+			if c.Sign() > 0 {
+				ever[wal].Add(ever[wal], c) // (spending only ever reduces what can be paid out)
+			}
 			continue
 		}
 		good := verifapi.Bool(fmt.Sprint("goodsig", s))
